@@ -105,6 +105,7 @@ type Machine struct {
 	objIDs    map[*Value]int
 	atEnd     []Value
 	userState map[string]Value
+	divCache  map[string][2]*sym.Term
 	lastModel *Violation
 	poolPuts  map[*Value]int
 	atomicVals map[*Value]Value
@@ -158,6 +159,7 @@ func (m *Machine) resetPath(prefix []Decision) {
 	m.pendingPanic = nil
 	m.mutexes = map[*Value]*mutexState{}
 	m.wgs = map[*Value]*wgState{}
+	m.divCache = map[string][2]*sym.Term{}
 	m.poolPuts = map[*Value]int{}
 	m.atomicVals = map[*Value]Value{}
 	m.syncMaps = map[*Value]*Map{}
